@@ -150,6 +150,18 @@ def document_cycle(case):
                     mism.append("loader:%s raises %s: %s" % (name, type(e).__name__, str(e)[:120]))
         except Exception as e:  # noqa
             mism.append("loader entry points: " + type(e).__name__)
+        # history: one path is reused by every document of this run (written over, read again): what is read is what
+        # was written last, through each loader
+        try:
+            shared = os.path.join(SHARED_DIR, "reused_path.nml")
+            NeuroMLWriter.write(doc, shared)
+            for name, f in (("NeuroMLLoader.load", lambda: NeuroMLLoader.load(shared)),
+                            ("read_neuroml2_file", lambda: read_neuroml2_file(shared))):
+                got = dump(f())
+                if got != ref_dump:
+                    mism.append("history:%s of a path that was written over returns a different document" % name)
+        except BaseException as e:  # noqa
+            mism.append("history: reused path raises %s: %s" % (type(e).__name__, str(e)[:120]))
         r["entry_mismatch"] = mism
         r["text0"] = texts[0] if len(texts[0]) < 3000 else texts[0][:3000]
         r["bytes_stable"] = texts[1] == texts[2]
@@ -164,7 +176,14 @@ def document_cycle(case):
 
 
 if P.get("mode") == "document":
-    print(json.dumps({"results": [document_cycle(c) for c in P["cases"]]}))
+    import shutil
+    import tempfile
+    SHARED_DIR = tempfile.mkdtemp(prefix="verif_c01_shared_")
+    try:
+        out = [document_cycle(c) for c in P["cases"]]
+    finally:
+        shutil.rmtree(SHARED_DIR, ignore_errors=True)
+    print(json.dumps({"results": out}))
     sys.exit(0)
 
 res = []
